@@ -251,7 +251,11 @@ PROBE = {
     "veh/U.1.0.dsdl": "@union\nveh._Raw.1.0 r\nuint8 b\n@sealed\n",
     "veh/body/Svc.1.0.dsdl": "veh._Raw.1.0 r\n@sealed\n---\nveh.body.Door.1.0 d\n@sealed\n",
     "veh/Old.1.0.dsdl": "@deprecated\nuint8 a\n@extent 64\n",
-    "oth/Ext.1.0.dsdl": "veh.body.lock.Latch.1.2 back\n@sealed\n",
+    "oth/Ext.1.0.dsdl": "veh.body.lock.Latch.1.2 back\noth.Request.1.0 plain\noth.dev.sensor.Sample.1.0 deep\n@sealed\n",
+    # an ordinary message that merely is NAMED like a service half, and a type below an intermediate namespace that has no
+    # types of its own (the shape of uavcan.si.unit.*)
+    "oth/Request.1.0.dsdl": "uint8 a\n@sealed\n",
+    "oth/dev/sensor/Sample.1.0.dsdl": "uint8 a\n@sealed\n",
 }
 
 
